@@ -934,7 +934,8 @@ def run(ctx: core.Check, cases=None):
                 "the dispatcher) on witness and grid specifications scaled by 2^-30, 2^-60, 2^-70, 2^36, 1e-6, 1e-19, 1e6 (variances by the "
                 "square), with the full law oracle at that scale and, for the power-of-two scales, bounds == scale x bounds of the "
                 "unscaled specification; the discretisation Params.steps (and p_values) set to 100/40/300/400, used and restored, with the law "
-                "oracle at that grid and before/after equality; falsy-but-valid arguments (0, 0.0, -0.0) through dispatcher and constructors. Each admissible case is checked "
+                "oracle at that grid and before/after equality; every call repeated under np.errstate(all='raise') and warnings-as-errors "
+                "(same value or an exception, never another value); falsy-but-valid arguments (0, 0.0, -0.0) through dispatcher and constructors. Each admissible case is checked "
                 "against ~20-60 exact finite laws (Markov/Cantelli/range-mean two-point, Chebyshev three-point, three-point "
                 "moment-matched, mixtures, mean-fixed random laws; Khinchin mixtures of uniforms for the mode). A case is non-trivial "
                 "unless the range or the dispersion is degenerate; distinctness on (call, arguments).")
@@ -1016,6 +1017,7 @@ def run(ctx: core.Check, cases=None):
             ctx.sample({"stream": stream, "fn": fn, "args": _ja(A), "left[0,1,100,199]": [impl[1][i] for i in (0, 1, 100, 199)],
                         "right[0,1,100,199]": [impl[2][i] for i in (0, 1, 100, 199)]})
     grid_stream(ctx)
+    fp_state_stream(ctx)
 
 
 GRIDS = (100, 40, 300, 400)
@@ -1071,6 +1073,33 @@ def grid_stream(ctx):
         if a != b:
             ctx.fail({"call": fn, "constructor": fn, "stream": "grid", "symptom": "state-leak"},
                      {"fn": fn, "args": _ja(A)}, f"{fn}{_ja(A)}: result after Params.steps/p_values were changed and restored differs from the result before")
+
+
+def fp_state_stream(ctx):
+    """practice P(i): the same calls under np.errstate(all='raise') and under warnings-as-errors give the same value
+    as under the default settings, or raise — never a different value; and the default result is unchanged afterwards"""
+    import warnings
+    rng = ctx.rng
+    specs = [(fn, dict(A)) for fn, A in WITNESS] + [(fn, gen_valid(rng, fn, rng.random() < 0.5)) for fn in FUNS for _ in range(ctx.scale(1, 6))]
+    for fn, A in specs:
+        call_fn = "known_properties" if rng.random() < 0.3 else fn
+        r0 = run_impl(call_fn, A)
+        results = {}
+        with np.errstate(all="raise"):
+            results["np.errstate(all='raise')"] = run_impl(call_fn, A)
+        with warnings.catch_warnings():
+            warnings.simplefilter("error")
+            results["warnings.simplefilter('error')"] = run_impl(call_fn, A)
+        results["afterwards"] = run_impl(call_fn, A)
+        ctx.count((call_fn, tuple(sorted((k, str(v)) for k, v in A.items())), "fp-state"), nontrivial=True, stream="fp-state")
+        for state, r in results.items():
+            same = (r == r0)
+            if same or (state != "afterwards" and r[0] == "err" and r0[0] == "ok"):
+                continue
+            ctx.fail({"call": call_fn, "constructor": feats_of(call_fn, A, "fp-state", "direct")["constructor"], "stream": "fp-state",
+                      "symptom": "state-dependent-value"},
+                     {"fn": call_fn, "args": _ja(A), "state": state, "default": _ji(r0), "under_state": _ji(r)},
+                     f"{call_fn}{_ja(A)}: under {state} the result differs from the one under the default settings")
 
 
 def rng_for(ctx, key):
